@@ -544,7 +544,7 @@ func TestCheck(t *testing.T) {
 	rep.Require("hook_events", 1000)
 	rep.Require("window_recv_then_push_before_refill", 3)
 	ctx := context.Background()
-	n := int64(cfg.Pick(600, 1200))
+	n := int64(cfg.Pick(600, 4000))
 	rep.Cases(n, func(idx int64, rng *mon.Rand) {
 		if idx%16 == 5 {
 			deadEndCase(ctx, rep, rng, cfg)
